@@ -8,6 +8,8 @@
 -/
 import Rngs.Model.RandCore
 import Rngs.Lib.BlockRefine
+import Rngs.Lib.BlockRefineInst
+import Rngs.Lib.ExtTieBlock
 import Rngs.Lib.SeedLemmas
 namespace Rngs
 
@@ -346,5 +348,27 @@ theorem foldl_chunks {τ : Type} (gen : τ → List U8 × τ) (size : Nat) (hl :
     rw [ih (off + 1) _ (acc ++ (gen s).1) _ (by simp [h, Nat.succ_mul, hl])]
     simp only [chunksOf, List.drop_drop, List.append_assoc]
     rw [hl, Nat.succ_mul, Nat.add_comm (n * size) size]
+
+/-! ## constructors that pass a byte source on -/
+
+section
+variable {σ τ ρ : Type}
+
+/-- `Self::new(R::from_rng(rng))` after the default `from_rng` of `R` -/
+theorem fromRngDefault_map (n : Nat) (f : List U8 → σ) (g : σ → τ) (fill : TryFill ρ) (src : ρ) :
+    (match fromRngDefault n f fill src with
+      | (.ok v, s) => (.ok (g v), s)
+      | (.error e, s) => (.error e, s)) = fromRngDefault n (fun b => g (f b)) fill src := by
+  unfold fromRngDefault
+  split <;> rename_i h <;> split at h <;> simp_all
+
+/-- a newtype constructor mapped over the result -/
+theorem except_pair_eta (x : Except SrcErr σ × ρ) :
+    (match x with
+      | (.ok v, s) => (.ok v, s)
+      | (.error e, s) => (.error e, s)) = x := by
+  obtain ⟨r, s⟩ := x
+  cases r <;> rfl
+end
 
 end Rngs
